@@ -105,4 +105,29 @@ theorem reinit_resets_depth (t : Target) (guard : PS → Bool) (s : HState) :
 example : (hApply { P := [[1]], b := [0], wall := none } (fun _ => true)
     (hInit { P := [[1]], b := [0], wall := none } 2 (1/2) [1]) .reinit).md = 15 := rfl
 
+/-- **Histories with target replacement** (`sampler.target = B`, optionally `initial_point = current_point`, then
+    `reinitialize()` — what HybridGibbs does with a NUTS sampler in every sweep): after every operation the cached
+    log-density and gradient belong to the current point UNDER THE TARGET THEN IN FORCE. -/
+theorem history2_coherent (ops : List HOp2) (ts : Target × HState) (h : ts.2.coherent ts.1) :
+    ∀ ts' ∈ runHistory2 (fun z => z.logd.isFinite) ts ops, ts'.2.coherent ts'.1 := by
+  induction ops generalizing ts with
+  | nil => intro ts' hs; simp [runHistory2] at hs
+  | cons op ops ih =>
+    intro ts' hs
+    simp only [runHistory2, List.mem_cons] at hs
+    have h1 : (hApply2 (fun z => z.logd.isFinite) ts op).2.coherent (hApply2 (fun z => z.logd.isFinite) ts op).1 := by
+      cases op with
+      | op o => exact hApply_coherent ts.1 ts.2 o h
+      | retarget t' here => exact ⟨rfl, rfl⟩
+    rcases hs with rfl | hs
+    · exact h1
+    · exact ih _ h1 ts' hs
+
+/-- hypotheses satisfiable; after a re-target "here" the point is kept and the caches are those of the new target -/
+example :
+    let tA : Target := { P := [[1]], b := [0], wall := none }
+    let tB : Target := { P := [[4]], b := [1], wall := none }
+    let r := hApply2 (fun _ => true) (tA, hInit tA 2 (1/2) [1]) (.retarget tB true)
+    r.2.x = [1] ∧ r.2.grad = tB.grad [1] ∧ r.2.md = 15 := ⟨rfl, rfl, rfl⟩
+
 end CuqiVerif.C08
